@@ -259,7 +259,7 @@ def prepare(work, tier, seed):
 def random_cases(rng, tier):
     """Problems beyond the enumerated universe: up to 4 items, 4 classes (6 items in clips of 1/2/3 events with <= 2 classes),
     1/4 and 1/8 lattices, any clip partition."""
-    want = 400 if tier == "quick" else 3000
+    want = 400 if tier == "quick" else 2000
     made = 0
     while made < want:
         task = rng.choice(["cc", "cml", "sec", "sed"])
